@@ -414,3 +414,60 @@ _old_entry_tasks = entry_tasks
 
 def entry_tasks(root, timeout_ms=10000):      # noqa: F811
     return _old_entry_tasks(root, timeout_ms) + [EntryTask(root, 7, "best_match", timeout_ms)]
+
+
+def relevance_task_run(self, res):
+    """by_relevance(...).relevance(error): a tuple (int, bool, bool) - any two keys are comparable, so
+    max / min in best_match cannot raise TypeError whatever the errors' keywords are (incl. None)."""
+    repo = extract.Repo(self.root)
+    ctx = Ctx(repo, contracts={}, config={})
+    unit = repo.unit("exceptions:by_relevance.relevance")
+    res["function"], res["source_hash"] = unit.key, unit.source_hash()
+
+    class E:
+        pass
+    err = E()
+
+    class P:
+        pass
+
+    def getattr_hook(I, st, obj, attr):
+        if obj is err:
+            if attr == "validator":
+                return [(st, SV(z3.Const("err_validator", V)))]
+            if attr in ("path", "relative_path", "absolute_path"):
+                return [(st, P())]
+        return None
+
+    def builtin_hook(I, st, name, args, kwargs, node):
+        if name == "len" and isinstance(args[0], P):
+            return [(st, SInt(z3.Int("path_len")))]
+        return None
+    ctx.config.update(getattr_hook=getattr_hook, builtin_hook=builtin_hook)
+    I = Interp(ctx)
+    st = State()
+    st.unit = unit
+    st.closure = {"weak": PySet((lift("anyOf"), lift("oneOf"))), "strong": PySet(())}
+    st.pc.append(smt.is_kind(z3.Const("err_validator", V), smt.K_STR, smt.K_NONE))
+    outs = I.run_unit(unit, st, [err], {})
+    res["paths"] = len(outs)
+    obls = list(ctx.obligations)
+    n = 0
+    for s, ctl in outs:
+        n += 1
+        if ctl[0] == "raise":
+            obls.append(core.Obligation("%s/S/raise:%s" % (self.name, ctl[1].cls), "S", s.pc, False, note="relevance raises"))
+            continue
+        r = ctl[1]
+        ok = isinstance(r, PyTuple) and len(r.items) == 3 and isinstance(r.items[0], SInt) and all(isinstance(x, SB) for x in r.items[1:])
+        obls.append(core.Obligation("%s/F/comparable-key#%d" % (self.name, n), "F", s.pc, z3.BoolVal(bool(ok)),
+                                    note="the sort key is (int, bool, bool): totally ordered, never compares a keyword name or None (got %r)" % (r,)))
+    self.finish(res, ctx, obls)
+
+
+EntryTask._run_relevance = relevance_task_run
+_old_entry_tasks2 = entry_tasks
+
+
+def entry_tasks(root, timeout_ms=10000):      # noqa: F811
+    return _old_entry_tasks2(root, timeout_ms) + [EntryTask(root, 7, "relevance", timeout_ms)]
